@@ -132,6 +132,8 @@ def checkTT (params lines : List String) : CaseResult := Id.run do
       | some i => blocked := blocked ++ [i]
       | none => r := { r with bad := ln :: r.bad }
     | "out" :: rest => outs := outs ++ [" ".intercalate rest]
+    | "dopanic" :: i :: rest =>
+      r := { r with specs := s!"do_panics: Do call {i} panicked in the caller's goroutine ({" ".intercalate rest}) — a Do call returns, whatever options it is given" :: r.specs }
     | "harness-error" :: _ => r := { r with bad := ln :: r.bad }
     | _ => r := { r with bad := ln :: r.bad }
   if !r.bad.isEmpty then return r
